@@ -669,3 +669,135 @@ pub fn c16_parallel(seed: u64, threads: usize, per_thread: u64) -> RunOut {
     out.case_hash = Some(h.get());
     out
 }
+
+/// A value whose deserialization fails on the receiving endpoint for some values (an item that "fails
+/// individually" on the receive side).
+#[derive(Clone, Debug, PartialEq, Eq, serde::Serialize)]
+pub struct Picky(pub u64);
+
+impl<'de> serde::Deserialize<'de> for Picky {
+    fn deserialize<D: serde::Deserializer<'de>>(d: D) -> Result<Self, D::Error> {
+        let v = u64::deserialize(d)?;
+        if v % 5 == 3 {
+            return Err(serde::de::Error::custom("picky value refused"));
+        }
+        Ok(Picky(v))
+    }
+}
+
+#[derive(serde::Serialize, serde::Deserialize)]
+pub enum PShip {
+    Rx(watch::Receiver<Picky>),
+}
+
+/// C15, receive-side item errors: values that the receiving endpoint cannot decode are reported as errors and
+/// do not end the channel: the receiver converges to the latest decodable value.
+pub fn c15_picky(run: u64, seed: u64) -> RunOut {
+    let mut rng = Rng::new(seed ^ 0x91c);
+    let cfg_a = rch_cfg(&mut rng);
+    let cfg_b = rch_cfg(&mut rng);
+    let netcfg = draw_netcfg(&mut rng);
+    let h1 = *rng.pick(&[0u64, 0, 20, 50]);
+    let n_updates = 2 + rng.usize_below(20);
+    let settle_every = 1 + rng.usize_below(4);
+    let drop_sender = rng.chance(60);
+    let replay = json!({"run": run, "seed": seed, "scenario": "receiver cannot decode every 5th value (v % 5 == 3)", "cfg_a": cfg_json(&cfg_a), "cfg_b": cfg_json(&cfg_b), "net": netcfg_class(&netcfg), "h1_pct": h1,
+        "updates": n_updates, "settle_every": settle_every, "drop_sender": drop_sender});
+    let mut out = RunOut::default();
+    let panics0 = crate::mem::panic_count();
+    let prefix = crate::clock::thread_prefix();
+    install_h1(rng.fork(1), h1, 0);
+    let res: Result<(), String> = run_virtual(seed, async {
+        let conn = connect_rch::<PShip, ()>(cfg_a.clone(), cfg_b.clone(), netcfg.clone(), &mut rng).await?;
+        let RchConn { net, a, b, sched: _s } = conn;
+        let RchEnd { tx: mut tx_ab, rx: _rx_a, conn: _ca } = a;
+        let RchEnd { tx: _tx_b, rx: mut rx_ab, conn: _cb } = b;
+        let (wtx, wrx) = watch::channel::<Picky, remoc::codec::Default>(Picky(0));
+        let ship = crate::sched::spawn(async move {
+            let r = tx_ab.send(PShip::Rx(wrx)).await.map_err(|e| e.to_string());
+            (r, tx_ab)
+        });
+        let got = or_quiescent(rx_ab.recv()).await;
+        let Some(Ok(Some(PShip::Rx(mut rrx)))) = got else { return Err("watch receiver did not arrive".into()) };
+        let _ = ship.await;
+        let seen: Arc<Mutex<Vec<Result<u64, String>>>> = Arc::new(Mutex::new(Vec::new()));
+        let seen2 = seen.clone();
+        let closed = Arc::new(Mutex::new(false));
+        let closed2 = closed.clone();
+        let otask = crate::sched::spawn(async move {
+            loop {
+                if rrx.changed().await.is_err() {
+                    *closed2.lock().unwrap() = true;
+                    break;
+                }
+                crate::simnet::bump_progress();
+                let r = rrx.borrow_and_update().map(|v| v.0).map_err(|e| e.to_string());
+                seen2.lock().unwrap().push(r);
+            }
+            rrx
+        });
+        let mut last = 0u64;
+        let mut sent_picky = 0u64;
+        for k in 1..=n_updates as u64 {
+            // the last value is one the receiver can decode
+            let v = if k == n_updates as u64 && k % 5 == 3 { k + 1 } else { k };
+            if v % 5 == 3 {
+                sent_picky += 1;
+            }
+            if wtx.send(Picky(v)).is_err() {
+                return Err("watch send failed".into());
+            }
+            last = v;
+            if k as usize % settle_every == 0 {
+                settle().await;
+            }
+        }
+        settle().await;
+        if drop_sender {
+            drop(wtx);
+            settle().await;
+        }
+        let s = seen.lock().unwrap().clone();
+        let last_ok = s.iter().rev().find_map(|r| r.as_ref().ok().copied());
+        let errors = s.iter().filter(|r| r.is_err()).count();
+        let mut bad: Vec<(String, String)> = Vec::new();
+        if last_ok != Some(last) {
+            bad.push(("C15:latest-value-lost".into(), format!("receiver that cannot decode some intermediate values ({sent_picky} sent, {errors} errors observed): last value sent is {last} but the receiver last observed {last_ok:?} at quiescence of a healthy connection (receiver closed: {})", *closed.lock().unwrap())));
+        }
+        let oks: Vec<u64> = s.iter().filter_map(|r| r.as_ref().ok().copied()).collect();
+        if oks.windows(2).any(|w| w[1] < w[0]) {
+            bad.push(("C15:went-backwards".into(), format!("observed values {oks:?}")));
+        }
+        if oks.iter().any(|v| v % 5 == 3) {
+            bad.push(("C15:value-never-sent".into(), format!("an undecodable value was observed: {oks:?}")));
+        }
+        if !drop_sender && *closed.lock().unwrap() {
+            bad.push(("C15:closed-while-sender-alive".into(), format!("the receiver reports the channel closed although the sender is alive and the connection healthy (after {errors} item errors)")));
+        }
+        for (sig, d) in bad.into_iter().take(2) {
+            let mut rp = replay.clone();
+            rp["observed"] = json!(s.iter().map(|r| format!("{r:?}")).collect::<Vec<_>>());
+            rp["trace_tail"] = net.trace_json(20);
+            out.viol(sig, d, rp);
+        }
+        out.count("picky_runs", 1);
+        out.count("undecodable_values_sent", sent_picky);
+        out.count("item_errors_observed", errors as u64);
+        let mut h = Fnv::new();
+        h.add_str(&format!("picky{n_updates}{settle_every}{drop_sender}{}{errors}", oks.len()));
+        h.add_u64(net.signature());
+        if sent_picky > 0 {
+            out.case_hash = Some(h.get());
+        }
+        drop(otask);
+        Ok(())
+    });
+    uninstall_h1();
+    if let Err(e) = res {
+        out.inconclusive = Some(e);
+    }
+    for p in crate::mem::panics_since(&prefix, panics0) {
+        out.viol("C15:panic", format!("panic at {}: {}", p.location, p.message), replay.clone());
+    }
+    out
+}
